@@ -914,6 +914,28 @@ func runUnpackCase(cfg *Config, rep *Report, idx int, c *UCase, arena string, re
 		rep.AddOracle(OracleFailure{Property: "C19", Lane: "unpack", What: fmt.Sprintf("Unpack %s: %v", out.class, out.panicked), Input: c, ReqIdx: idx + 1})
 	}
 
+	// ---- C12: an Unpack that reports success has processed the whole archive: its last file, directory
+	// or link entry is there (seed C12-e: a swallowed rejection ends the loop early with a nil error)
+	if out.class == "ok" {
+		for k := len(decoded) - 1; k >= 0; k-- {
+			e := decoded[k]
+			if e.Typ != tar.TypeReg && e.Typ != tar.TypeRegA && e.Typ != tar.TypeDir && e.Typ != tar.TypeSymlink {
+				continue
+			}
+			if e.Name == "" {
+				continue
+			}
+			rel := filepath.Clean(strings.TrimPrefix(e.Name, "/"))
+			if rel == "." || rel == ".." || strings.HasPrefix(rel, "../") {
+				break
+			}
+			if _, err := os.Lstat(filepath.Join(arena, dstRel, rel)); err != nil {
+				rep.AddOracle(OracleFailure{Property: "C12", Lane: "unpack", What: fmt.Sprintf("Unpack returned nil but the archive's last entry %q was not materialised", e.Name), Input: c, ReqIdx: idx + 1})
+			}
+			break
+		}
+	}
+
 	// ---- C01: nothing outside dst changes ----
 	bm := map[string]FSNode{}
 	for _, n := range before {
